@@ -894,7 +894,7 @@ func (d *bincDecDriver[T]) DecodeNaked() {
 	}
 	if n.v == valueTypeUint && d.h.SignedInteger {
 		n.v = valueTypeInt
-		n.i = int64(n.u)
+		n.i = int64(chkOvf.SignedIntV(n.u)) // a value >= 2^63 does not fit: error, as cbor, simple and json do
 	}
 }
 
